@@ -19,6 +19,7 @@ type fgen struct {
 	rows     []int // allowed rows of the atom table (nil = all)
 	budget   int   // remaining formula nodes (connectives + leaves); <=0 forces single-atom leaves
 	multiPC  bool  // bias leaves towards several constraints (and several quantifiers) in one propertyConstraints map
+	companions bool // add always-true constraints (minCount 0 / maxCount 9) next to atoms, under the same key
 }
 
 func (g *fgen) newAtom() *m.Atom {
@@ -93,7 +94,17 @@ func (g *fgen) leaf(depth int) *m.F {
 			continue
 		}
 		usedProp[a.Prop] = true
-		f.PC = append(f.PC, m.PCEntry{Prop: a.Prop, Cs: []m.C{{Kind: "atom", Atom: a}}})
+		e := m.PCEntry{Prop: a.Prop, Cs: []m.C{{Kind: "atom", Atom: a}}}
+		// an always-true companion under the same key: several constraints in one constraint map are a conjunction
+		if g.companions && rapid.IntRange(0, 3).Draw(g.t, "companion") == 0 {
+			switch k := a.R().Kind; {
+			case k != "minCount" && rapid.Bool().Draw(g.t, "companionKind"):
+				e.Extra = append(e.Extra, m.ExtraC{Kind: "minCount", Arg: m.YInt(0)})
+			case k != "maxCount":
+				e.Extra = append(e.Extra, m.ExtraC{Kind: "maxCount", Arg: m.YInt(9)})
+			}
+		}
+		f.PC = append(f.PC, e)
 	}
 	if len(f.PC) == 0 {
 		a := g.atom()
